@@ -30,7 +30,7 @@ WorksC == { << <<TestTg, T("addSuccess", NoTags, Add("y"))>>, <<Plain>> >> }
 
 \* explicit times: back-to-back tests of a thread whose start time equals the previous end time (and equal start /
 \* end), interleaved with another thread's blocks
-WorksT == [1..2 -> SeqsUpTo({Tm(5, 7), Tm(7, 7), Tm(7, 9)}, 2)]
+WorksT == [1..2 -> SeqsUpTo({Tm(5, 7), Tm(7, 7), Tm(7, 5)}, 2)]
 
 \* thorough: 3 threads x 3 items, 4 threads x 1 item, 2 threads x 3 items, every run-level kind
 W33a == << <<Tagged, Plain, R("stop")>>, <<Plain, Ungl, TestTg>>, <<R("startTestRun"), Tagged, Plain>> >>
